@@ -22,7 +22,8 @@ SetExp(j) == SetExpected(j.files[1].m, [asgs |-> j.asgs])
 EchoOK(j, o) ==
   /\ o.id = j.id
   /\ o.echo.files = j.files
-  /\ o.echo.charts = j.charts
+  /\ Len(o.echo.charts) = Len(j.charts)
+  /\ \A i \in DOMAIN j.charts : o.echo.charts[i].name = j.charts[i].name /\ o.echo.charts[i].vals = j.charts[i].vals
 
 \* --- the checks: name, applicable?, holds? ---------------------------------------------
 \* nothing of the real code may panic
@@ -58,6 +59,14 @@ P_NullRemovesKey(j, o) ==
      /\ NullRemovesKey(CaseOfJ(j), 1, o.root.v)
      /\ \A i \in 1..Len(j.charts) : NullRemovesKey(CaseOfJ(j), i, o.scopes[i])
 
+\* the same inputs typed on a real `helm template` command line (pkg/cmd flag parsing included):
+\* every chart level's templates see the values the property demands; the command fails only
+\* where a refusal is allowed
+P_CommandLine(j, o) ==
+  o.cli.ran =>
+    IF ~o.cli.ok THEN RefusalAllowedUser(CaseOfJ(j))
+    ELSE \A i \in 1..Len(j.charts) : ScopeOk(CaseOfJ(j), i, o.cli.scopes[i])
+
 \* chart defaults and the caller's maps are unmodified
 P_InputsUnmodified(j, o) == o.merge.ok => o.unmod.ok
 
@@ -70,6 +79,7 @@ Checks(j, o) == <<
   [n |-> "C04_RootPrecedence",    v |-> P_RootPrecedence(j, o)],
   [n |-> "C04_ScopePrecedence",   v |-> P_ScopePrecedence(j, o)],
   [n |-> "C04_NullRemovesKey",    v |-> P_NullRemovesKey(j, o)],
+  [n |-> "C04_CommandLine",       v |-> P_CommandLine(j, o)],
   [n |-> "C04_InputsUnmodified",  v |-> P_InputsUnmodified(j, o)] >>
 
 \* The cases are consumed in chunks of Chunk lines, one chain of states per chunk, so that several
